@@ -5,7 +5,7 @@ audit -> known findings -> correspondence (Lean sealer model, with the real emit
 sealer.py) -> oracle on the real code.
 
 Oracle per generated document d (all on the real implementation):
-  inmemory   verify_seal(seal_document(d)) is VERIFIED
+  inmemory   verify_seal(seal_document(d)) is VERIFIED; seal_document(d) is d (minus earlier seals) plus one SEAL section at the end
   noseal     verify_seal(d) is NO_SEAL
   reseal     seal_document(seal_document(d)) == seal_document(d)  (AST equality and identical emission)
   text       verify_seal(parse(emit(seal_document(d)))) is VERIFIED
@@ -141,6 +141,10 @@ def run_case(case):
         check("reseal", resealed == sealed and e1 == e2, expected="seal(seal d) == seal d", got="AST differs" if resealed != sealed else "emission differs")
     try:
         sealed_model = PD.ast_to_model(sealed)
+        # what is sealed is the document: sealing adds the seal section (replacing an earlier one) and changes nothing else
+        check("seal_body", same(PM.strip_seal(sealed_model), PM.strip_seal(doc)) and PM.count_seal_sections(sealed_model) == 1
+              and PM.is_seal(sealed_model["sections"][-1]), expected="seal_document(d) = d without earlier seals + one SEAL section at the end",
+              got="body of the sealed document differs from the document" if not same(PM.strip_seal(sealed_model), PM.strip_seal(doc)) else "seal section count/position")
         out["corr"].append({"req": {"op": "seal", "doc": doc, **externals(doc)},
                             "impl": {"sealed": sealed_model, "verify_sealed": st, "verify_input": st0, "reseal_equal": resealed == sealed}})
     except PD.Unmodelled:
@@ -306,7 +310,8 @@ def build_cases(ctx):
     n_cli_sub = 60 if ctx.thorough else (6 if ctx.widen > 1 else 0)
     for i, c in enumerate(cases):
         c["seed"] = rng.randrange(1 << 30)
-        c["mut_cap"] = 120 if ctx.thorough else (60 if w > 1 else 40)
+        # corpus / template documents get every mutation at every site; random ones are capped (every kind kept)
+        c["mut_cap"] = None if c["origin"] != "rnd_text" and c["origin"] != "rnd_ast" else (120 if ctx.thorough else (60 if w > 1 else 40))
         c["corr_cap"] = 12
         c["n_mix"] = 6 if ctx.thorough else 3
         c["cli"] = None
